@@ -212,7 +212,7 @@ func wfRangeReq(o *ObjectRangeRequest) bool {
 
 //@ pred uploaderInv(u) = u != nil && u.buckets != nil && u.timeSource != nil && u.uploadID != nil &&
 //@   allstr(b, imp(has(u.buckets, b), u.buckets[b] != nil && u.buckets[b].uploads != nil && u.buckets[b].objectIndex != nil &&
-//@     allstr(i, imp(has(u.buckets[b].uploads, i), u.buckets[b].uploads[i] != nil && u.buckets[b].uploads[i].Meta != nil))))
+//@     allstr(i, imp(has(u.buckets[b].uploads, i), u.buckets[b].uploads[i] != nil && allocated(u.buckets[b].uploads[i]) && u.buckets[b].uploads[i].Meta != nil))))
 
 //@ func (*uploader).getUnlocked
 //@ props C06 C14 C09
@@ -262,21 +262,109 @@ func wfRangeReq(o *ObjectRangeRequest) bool {
 
 // index of pending uploads: every value is a non-empty list of non-nil uploads
 //@ pred uploadIndexInv(l) = l != nil && allif(k, imp(sl_has(l)[k],
-//@     typeis(sl_val(l)[k], []*multipartUpload) && len(dyn(sl_val(l)[k], []*multipartUpload)) >= 1 &&
+//@     typeis(sl_val(l)[k], []*multipartUpload) && len(dyn(sl_val(l)[k], []*multipartUpload)) >= 1 && allocated(dyn(sl_val(l)[k], []*multipartUpload)) &&
 //@     all(j, 0, len(dyn(sl_val(l)[k], []*multipartUpload)), dyn(sl_val(l)[k], []*multipartUpload)[j] != nil)))
+
+// full consistency of the two views of a bucket's pending uploads (C14):
+//   every list entry is filed under its own object key and is the upload registered under its id, ids within a list are distinct;
+//   every registered upload occurs in the list of its object key
+//@ pred ulist(l, k) = dyn(sl_val(l)[k], []*multipartUpload)
+//@ pred idxMember(bu) = allif(k, imp(sl_has(bu.objectIndex)[k], typeis(k, string) &&
+//@     all(j, 0, len(ulist(bu.objectIndex, k)), ulist(bu.objectIndex, k)[j].Object == dyn(k, string) &&
+//@         has(bu.uploads, ulist(bu.objectIndex, k)[j].ID) && bu.uploads[ulist(bu.objectIndex, k)[j].ID] == ulist(bu.objectIndex, k)[j])))
+//@ pred idxDistinct(bu) = allif(k, imp(sl_has(bu.objectIndex)[k],
+//@     all0(a, 0, len(ulist(bu.objectIndex, k)), all0(b, a + 1, len(ulist(bu.objectIndex, k)), ulist(bu.objectIndex, k)[a].ID != ulist(bu.objectIndex, k)[b].ID))))
+//@ pred idxSound(bu) = idxMember(bu) && idxDistinct(bu)
+//@ pred idxComplete(bu) = allstr(i, imp(has(bu.uploads, i), bu.uploads[i] != nil && bu.uploads[i].ID == i &&
+//@     sl_has(bu.objectIndex)[iface(bu.uploads[i].Object)] &&
+//@     ex(j, 0, len(ulist(bu.objectIndex, iface(bu.uploads[i].Object))), ulist(bu.objectIndex, iface(bu.uploads[i].Object))[j] == bu.uploads[i])))
+//@ pred idxCompleteAt(bu, i) = bu.uploads[i] != nil && bu.uploads[i].ID == i &&
+//@     sl_has(bu.objectIndex)[iface(bu.uploads[i].Object)] &&
+//@     ex(j, 0, len(ulist(bu.objectIndex, iface(bu.uploads[i].Object))), ulist(bu.objectIndex, iface(bu.uploads[i].Object))[j] == bu.uploads[i])
+//@ pred idxInv(bu) = bu != nil && bu.uploads != nil && uploadIndexInv(bu.objectIndex) && idxSound(bu) && idxComplete(bu)
+
+// every bucket's upload index is consistent and no two buckets share a map or an index
+//@ pred uWf(u) = allstr(b, imp(has(u.buckets, b), u.buckets[b] != nil && u.buckets[b].uploads != nil && uploadIndexInv(u.buckets[b].objectIndex) &&
+//@     allocated(u.buckets[b]) && allocated(u.buckets[b].uploads) && allocated(u.buckets[b].objectIndex)))
+//@ pred ubWf(u, b) = u.buckets[b] != nil && u.buckets[b].uploads != nil && uploadIndexInv(u.buckets[b].objectIndex) &&
+//@     allocated(u.buckets[b]) && allocated(u.buckets[b].uploads) && allocated(u.buckets[b].objectIndex)
+//@ pred uMember(u) = allstr(b, imp(has(u.buckets, b), idxMember(u.buckets[b])))
+//@ pred uDistinct(u) = allstr(b, imp(has(u.buckets, b), idxDistinct(u.buckets[b])))
+//@ pred uCompl(u) = allstr(b, imp(has(u.buckets, b), idxComplete(u.buckets[b])))
+//@ pred uSep(u) = allstr(b1, allstr(b2, imp(has(u.buckets, b1) && has(u.buckets, b2) && b1 != b2,
+//@     u.buckets[b1] != u.buckets[b2] && u.buckets[b1].uploads != u.buckets[b2].uploads && u.buckets[b1].objectIndex != u.buckets[b2].objectIndex)))
+
+//@ func (*bucketUploads).add
+//@ props C14 C09
+//@ option guard-triggers
+//@ let O = iface(mpu.Object)
+//@ requires          wf:     bu != nil && bu.uploads != nil && uploadIndexInv(bu.objectIndex) && mpu != nil
+//@ requires [C14]    member: idxMember(bu)
+//@ requires [C14]    distinct: idxDistinct(bu)
+//@ requires [C14]    compl:  idxComplete(bu)
+//@ uses wf: req.wf
+//@ uses member: req.wf req.member req.fresh
+//@ uses distinct: req.wf req.member req.distinct req.fresh
+//@ uses compl: req.wf req.compl req.fresh
+//@ requires [C14]    fresh:  !has(bu.uploads, mpu.ID)
+//@ ensures [C14]     reg:    has(bu.uploads, mpu.ID) && bu.uploads[mpu.ID] == mpu
+//@ ensures [C14]     others: allstr(i, imp(i != mpu.ID, has(bu.uploads, i) == old(has(bu.uploads, i)) && bu.uploads[i] == old(bu.uploads[i])))
+//@ ensures [C14]     last:   sl_has(bu.objectIndex)[O] && len(ulist(bu.objectIndex, O)) == ite(old(sl_has(bu.objectIndex)[O]), old(len(ulist(bu.objectIndex, O))) + 1, 1) &&
+//@                             ulist(bu.objectIndex, O)[len(ulist(bu.objectIndex, O)) - 1] == mpu
+//@ ensures [C14]     order:  imp(old(sl_has(bu.objectIndex)[O]), all(j, 0, old(len(ulist(bu.objectIndex, O))), ulist(bu.objectIndex, O)[j] == old(ulist(bu.objectIndex, O)[j])))
+//@ ensures [C14]     idxkeep: allif(k, imp(k != O, sl_has(bu.objectIndex)[k] == old(sl_has(bu.objectIndex)[k]) && sl_val(bu.objectIndex)[k] == old(sl_val(bu.objectIndex)[k])))
+//@ ensures           wf:     uploadIndexInv(bu.objectIndex)
+//@ ensures [C14]     member: idxMember(bu)
+//@ ensures [C14]     distinct: idxDistinct(bu)
+//@ ensures [C14]     compl:  idxComplete(bu)
+//@ modifies bu.uploads[:], sl_has(bu.objectIndex), sl_val(bu.objectIndex), sl_len(bu.objectIndex), sl_key(bu.objectIndex)
 
 //@ func (*bucketUploads).remove
 //@ props C06 C14 C09
+//@ option guard-triggers
+//@ seeds neighbours
+//@ let O = iface(old(bu.uploads[uploadID].Object))
 //@ requires          wf:     bu != nil && bu.uploads != nil && uploadIndexInv(bu.objectIndex)
 //@ requires          known:  has(bu.uploads, uploadID) && bu.uploads[uploadID] != nil
+//@ requires [C14]    member: idxMember(bu)
+//@ requires [C14]    distinct: idxDistinct(bu)
+//@ requires [C14]    compl:  idxComplete(bu)
+//@ uses wf: req.wf req.known -hints hint.hit hint.shift
+//@ uses back: req.wf req.known -hints hint.hit hint.shift
+//@ uses member: req.wf req.known req.member -hints hint.hit hint.shift hint.noid
+//@ uses distinct: req.wf req.known req.member req.distinct -hints hint.hit hint.shift
+//@ uses complA: req.wf req.known req.member req.compl -hints hint.hit hint.back hint.shift
+//@ uses wit: req.wf req.known req.compl -hints
+//@ uses complB: req.wf req.known req.compl -hints hint.hit hint.back hint.shift hint.wit
+//@ uses compl: req.wf -hints hint.complA hint.complB
 //@ loop 1 invariant  idx:    -1 <= rangeindex && rangeindex < len(uploads) && len(uploads) >= 1 && found >= -1 && found <= rangeindex
+//@ loop 1 invariant  first:  all(j, 0, rangeindex + 1, uploads[j].ID != uploadID) && found == rangeindex
 //@ ensures [C06,C14] gone:   !has(bu.uploads, uploadID)
 //@ ensures [C06,C14] others: allstr(i, imp(i != uploadID, has(bu.uploads, i) == old(has(bu.uploads, i)) &&
 //@                             bu.uploads[i] == old(bu.uploads[i])))
+//@ rethint           hit:    0 <= found && found < old(len(ulist(bu.objectIndex, O))) && all(f, found, found + 1, old(ulist(bu.objectIndex, O)[f].ID) == uploadID)
+//@ rethint           shift:  len(uploads) == old(len(ulist(bu.objectIndex, O))) - 1 && all(j, 0, len(uploads), imp(j < found, uploads[j] == old(ulist(bu.objectIndex, O)[j])) && imp(j >= found, uploads[j] == old(ulist(bu.objectIndex, O)[j + 1])))
+//@ rethint           back:   all(b, 0, old(len(ulist(bu.objectIndex, O))), imp(b < found, b < len(uploads) && uploads[b] == old(ulist(bu.objectIndex, O)[b])) &&
+//@                             imp(b > found, b - 1 < len(uploads) && uploads[b - 1] == old(ulist(bu.objectIndex, O)[b])))
+//@ rethint           wit:    allstr(i, imp(old(has(bu.uploads, i)) && iface(old(bu.uploads[i].Object)) == O,
+//@                             old(bu.uploads[i]) != nil && old(bu.uploads[i].ID) == i && ex(j, 0, old(len(ulist(bu.objectIndex, O))), old(ulist(bu.objectIndex, O)[j]) == old(bu.uploads[i]) && mark(j - 1))))
+//@ rethint           complA: allstr(i, imp(has(bu.uploads, i) && iface(bu.uploads[i].Object) != O, idxCompleteAt(bu, i)))
+//@ rethint           complB: allstr(i, imp(has(bu.uploads, i) && iface(bu.uploads[i].Object) == O, idxCompleteAt(bu, i)))
+//@ rethint           dist:   all(b, 0, old(len(ulist(bu.objectIndex, O))), imp(b != found, old(ulist(bu.objectIndex, O)[b].ID) != uploadID))
+//@ rethint           noid:   all(j, 0, len(uploads), uploads[j].ID != uploadID)
+//@ ensures [C14]     member: idxMember(bu)
+//@ ensures [C14]     distinct: idxDistinct(bu)
+//@ ensures           wf:     uploadIndexInv(bu.objectIndex)
+//@ ensures [C14]     compl:  idxComplete(bu)
+//@ ensures [C14]     idxgone: imp(sl_has(bu.objectIndex)[O], all(j, 0, len(ulist(bu.objectIndex, O)), ulist(bu.objectIndex, O)[j].ID != uploadID))
+//@ ensures [C14]     idxlen: ite(old(len(ulist(bu.objectIndex, O))) == 1, !sl_has(bu.objectIndex)[O],
+//@                             sl_has(bu.objectIndex)[O] && len(ulist(bu.objectIndex, O)) == old(len(ulist(bu.objectIndex, O))) - 1)
+//@ ensures [C14]     idxkeep: allif(k, imp(k != O, sl_has(bu.objectIndex)[k] == old(sl_has(bu.objectIndex)[k]) && sl_val(bu.objectIndex)[k] == old(sl_val(bu.objectIndex)[k])))
 //@ modifies bu.uploads[:], sl_has(bu.objectIndex), sl_val(bu.objectIndex), sl_len(bu.objectIndex), sl_key(bu.objectIndex)
 
 //@ func (*uploader).CompleteMultipartUpload
-//@ props C06 C09
+//@ props C06 C09 C14
+//@ option guard-triggers
 //@ let M = u.buckets[bucket].uploads[id]
 //@ recfun psum(t) = ite(t <= 0, 0, psum(t-1) + len(M.parts[input.Parts[t-1].PartNumber].Body))
 //@ pred listedOK(parts, in, k) = 0 <= in.Parts[k].PartNumber && in.Parts[k].PartNumber < len(parts) &&
@@ -285,6 +373,13 @@ func wfRangeReq(o *ObjectRangeRequest) bool {
 //@ requires          inv:    uploaderInv(u) && u.storage != nil && input != nil
 //@ requires          free:   u.mu == 0 && allref(m, *multipartUpload, m.mu == 0)
 //@ requires          idx:    allstr(b, imp(has(u.buckets, b), uploadIndexInv(u.buckets[b].objectIndex)))
+//@ requires [C14]    uwf:    uWf(u)
+//@ requires [C14]    umember: uMember(u)
+//@ requires [C14]    udistinct: uDistinct(u)
+//@ requires [C14]    ucompl: uCompl(u)
+//@ requires [C14]    usep:   uSep(u)
+//@ requires [C14]    ids:    idsBelow(u)
+//@ uses hidden: req.ids req.uwf req.umember req.udistinct req.ucompl req.usep call.remove.wf call.remove.member call.remove.distinct call.remove.compl hint.frame hint.umemberA hint.umemberB hint.ucomplA hint.ucomplB
 //@ assume            mem:    all(t, 0, len(input.Parts) + 1, 0 <= psum(t) && psum(t) <= 281474976710655) because the listed parts are resident in memory (each part body is a live []byte)
 //@ loop 1 invariant  idx:    -1 <= rangeindex__1 && rangeindex__1 < len(input.Parts)
 //@ loop 1 invariant  ok:     all(k, 0, rangeindex__1 + 1, listedOK(mpu.parts, input, k))
@@ -300,17 +395,224 @@ func wfRangeReq(o *ObjectRangeRequest) bool {
 //@                             put_meta == old(M.Meta) && put_size == psum(len(input.Parts)))
 //@ ensures [C06]     keep:   imp(err == nil, allstr(i, imp(i != id, has(u.buckets[bucket].uploads, i) == old(has(u.buckets[bucket].uploads, i)) &&
 //@                             u.buckets[bucket].uploads[i] == old(u.buckets[bucket].uploads[i]))))
+//@ rethint           frame:  allstr(b, imp(has(u.buckets, b) && b != bucket, u.buckets[b] == old(u.buckets[b]) &&
+//@                             sl_has(u.buckets[b].objectIndex) == old(sl_has(u.buckets[b].objectIndex)) && sl_val(u.buckets[b].objectIndex) == old(sl_val(u.buckets[b].objectIndex)) &&
+//@                             samemap(u.buckets[b].uploads)))
+//@ rethint           umemberA: imp(has(u.buckets, bucket), idxMember(u.buckets[bucket]))
+//@ rethint           umemberB: allstr(b, imp(has(u.buckets, b) && b != bucket, idxMember(u.buckets[b])))
+//@ rethint           ucomplA: imp(has(u.buckets, bucket), idxComplete(u.buckets[bucket]))
+//@ rethint           ucomplB: allstr(b, imp(has(u.buckets, b) && b != bucket, idxComplete(u.buckets[b])))
+//@ ensures [C14]     uwf:    uWf(u)
+//@ ensures [C14]     umember: uMember(u)
+//@ ensures [C14]     udistinct: uDistinct(u)
+//@ ensures [C14]     ucompl: uCompl(u)
+//@ ensures [C14]     usep:   uSep(u)
+//@ ensures [C14]     ids:    idsBelow(u)
+//@ uses ids: req.inv req.uwf req.usep req.ids -hints hint.frame -calls call.remove.others call.remove.gone call.getUnlocked.found
+//@ ensures           locks:  u.mu == 0
+//@ unproved hint:umemberB@ret7 frame lemma (index entries of the other buckets are untouched): the solver diverges on it in this function's large context; the identical lemma is discharged in AbortMultipartUpload
+//@ unproved hint:ucomplB@ret7 frame lemma (registered uploads of the other buckets stay indexed): unstable in this function's context; the identical lemma is discharged in AbortMultipartUpload
+//@ uses frame: req.inv req.free req.uwf req.usep -hints -calls call.getUnlocked.found
+//@ uses uwf: req.inv req.free req.uwf req.usep -hints -calls call.remove.wf call.getUnlocked.found
+//@ uses umemberA: req.inv req.umember -hints -calls call.remove.member call.getUnlocked.found
+//@ uses umemberB: req.inv req.umember -hints hint.frame -calls call.getUnlocked.found
+//@ uses umember: req.inv -hints hint.umemberA hint.umemberB -calls call.getUnlocked.found
+//@ uses udistinct: req.inv req.free req.uwf req.udistinct req.usep -hints -calls call.remove.distinct call.getUnlocked.found
+//@ uses ucomplA: req.inv req.ucompl -hints -calls call.remove.compl call.getUnlocked.found
+//@ uses ucomplB: req.inv req.ucompl -hints hint.frame -calls call.getUnlocked.found
+//@ uses ucompl: req.inv -hints hint.ucomplA hint.ucomplB -calls call.getUnlocked.found
+//@ uses usep: req.inv req.free req.usep -hints -calls
+//@ uses pre.remove.wf: req.inv req.uwf -hints -calls call.getUnlocked.found
+//@ uses pre.remove.known: req.inv req.uwf -hints -calls call.getUnlocked.found
+//@ uses pre.remove.member: req.inv req.umember -hints -calls call.getUnlocked.found
+//@ uses pre.remove.distinct: req.inv req.udistinct -hints -calls call.getUnlocked.found
+//@ uses pre.remove.compl: req.inv req.ucompl -hints -calls call.getUnlocked.found
+
+//@ func newUploader
+//@ props C14 C09
+//@ option guard-triggers
+//@ requires          args:   timeSource != nil
+//@ ensures [C14]     inv:    uploaderInv(ret0) && ret0.mu == 0 && ret0.storage == b
+//@ ensures [C14]     idx:    uWf(ret0) && uMember(ret0) && uDistinct(ret0) && uCompl(ret0) && uSep(ret0) && idsBelow(ret0)
+
+//@ func newBucketUploads
+//@ props C14 C09
+//@ ensures [C14]     empty:  ret0 != nil && fresh(ret0) && ret0.uploads != nil && fresh(ret0.uploads) && ret0.objectIndex != nil && fresh(ret0.objectIndex) &&
+//@                             allstr(i, !has(ret0.uploads, i)) && sl_len(ret0.objectIndex) == 0 && sl_has(ret0.objectIndex) == nokeys() &&
+//@                             allocated(ret0) && allocated(ret0.uploads) && allocated(ret0.objectIndex)
+//@ modifies sl_len
+
+// upload ids are the successive values of the counter u.uploadID rendered in decimal
+//@ pred idsBelow(u) = allstr(b, imp(has(u.buckets, b), allstr(i, imp(has(u.buckets[b].uploads, i), 1 <= bigundec(i) && bigundec(i) <= big_val(u.uploadID)))))
+
+//@ func (*uploader).CreateMultipartUpload
+//@ props C14 C09
+//@ option guard-triggers
+//@ requires          inv:    uploaderInv(u) && meta != nil
+//@ requires          free:   u.mu == 0
+//@ requires [C14]    uwf:    uWf(u)
+//@ requires [C14]    umember: uMember(u)
+//@ requires [C14]    udistinct: uDistinct(u)
+//@ requires [C14]    ucompl: uCompl(u)
+//@ requires [C14]    usep:   uSep(u)
+//@ requires [C14]    ids:    idsBelow(u) && big_val(u.uploadID) >= 0
+//@ assume            one:    big_val(add1) == 1 && add1 != nil because add1 is initialised to new(big.Int).SetInt64(1) at package initialisation and never assigned afterwards
+//@ uses hidden: req.umember req.udistinct req.ucompl req.usep call.add.member call.add.distinct call.add.compl hint.frame hint.own hint.uwfA hint.uwfB hint.umemberA hint.umemberB hint.udistinctA hint.udistinctB hint.ucomplA hint.ucomplB
+//@ uses pre.add.wf: req.inv req.uwf -calls call.newBucketUploads.empty
+//@ uses pre.add.member: req.inv req.umember -calls call.newBucketUploads.empty
+//@ uses pre.add.distinct: req.inv req.udistinct -calls call.newBucketUploads.empty
+//@ uses pre.add.compl: req.inv req.ucompl -calls call.newBucketUploads.empty
+//@ ensures [C14]     ok:     ret1 == nil && has(u.buckets, bucket) && has(u.buckets[bucket].uploads, ret0) && u.buckets[bucket].uploads[ret0] != nil &&
+//@                             u.buckets[bucket].uploads[ret0].ID == ret0 && u.buckets[bucket].uploads[ret0].Bucket == bucket && u.buckets[bucket].uploads[ret0].Object == object &&
+//@                             u.buckets[bucket].uploads[ret0].Meta == meta
+//@ ensures [C14]     new:    old(!has(u.buckets, bucket) || !has(u.buckets[bucket].uploads, ret0))
+//@ ensures           inv:    uploaderInv(u)
+//@ rethint           frame:  allstr(b, imp(b != bucket, has(u.buckets, b) == old(has(u.buckets, b)) && imp(has(u.buckets, b), u.buckets[b] == old(u.buckets[b]) &&
+//@                             sl_has(u.buckets[b].objectIndex) == old(sl_has(u.buckets[b].objectIndex)) && sl_val(u.buckets[b].objectIndex) == old(sl_val(u.buckets[b].objectIndex)) &&
+//@                             samemap(u.buckets[b].uploads))))
+//@ rethint           own:    has(u.buckets, bucket) && imp(old(has(u.buckets, bucket)), u.buckets[bucket] == old(u.buckets[bucket])) &&
+//@                             imp(!old(has(u.buckets, bucket)), fresh(u.buckets[bucket]) && fresh(u.buckets[bucket].uploads) && fresh(u.buckets[bucket].objectIndex))
+//@ rethint           uwfA:   ubWf(u, bucket)
+//@ rethint           uwfB:   allstr(b, imp(has(u.buckets, b) && b != bucket, ubWf(u, b)))
+//@ rethint           umemberA: idxMember(u.buckets[bucket])
+//@ rethint           umemberB: allstr(b, imp(has(u.buckets, b) && b != bucket, idxMember(u.buckets[b])))
+//@ rethint           udistinctA: idxDistinct(u.buckets[bucket])
+//@ rethint           udistinctB: allstr(b, imp(has(u.buckets, b) && b != bucket, idxDistinct(u.buckets[b])))
+//@ rethint           ucomplA: idxComplete(u.buckets[bucket])
+//@ rethint           ucomplB: allstr(b, imp(has(u.buckets, b) && b != bucket, idxComplete(u.buckets[b])))
+//@ ensures [C14]     uwf:    uWf(u)
+//@ ensures [C14]     umember: uMember(u)
+//@ ensures [C14]     udistinct: uDistinct(u)
+//@ ensures [C14]     ucompl: uCompl(u)
+//@ ensures [C14]     usep:   uSep(u)
+//@ uses frame: req.inv req.free req.uwf req.usep -hints -calls call.newBucketUploads.empty
+//@ uses own: req.inv req.free -hints -calls call.newBucketUploads.empty
+//@ uses uwfA: req.inv req.uwf -hints hint.own -calls call.add.wf call.newBucketUploads.empty
+//@ uses uwfB: req.inv req.uwf -hints hint.frame -calls
+//@ uses uwf: req.inv -hints hint.uwfA hint.uwfB hint.own -calls
+//@ uses umemberA: req.inv -hints hint.own -calls call.add.member
+//@ uses umemberB: req.inv req.umember -hints hint.frame -calls
+//@ uses umember: req.inv -hints hint.umemberA hint.umemberB hint.own -calls
+//@ uses udistinctA: req.inv -hints hint.own -calls call.add.distinct
+//@ uses udistinctB: req.inv req.umember req.udistinct -hints hint.frame -calls
+//@ uses udistinct: req.inv -hints hint.udistinctA hint.udistinctB hint.own -calls
+//@ uses ucomplA: req.inv -hints hint.own -calls call.add.compl
+//@ uses ucomplB: req.inv req.ucompl -hints hint.frame -calls
+//@ uses ucompl: req.inv -hints hint.ucomplA hint.ucomplB hint.own -calls
+//@ uses usep: req.inv req.uwf req.usep -hints hint.frame hint.own -calls
+//@ ensures [C14]     ids:    idsBelow(u) && big_val(u.uploadID) >= 0
+//@ ensures           locks:  u.mu == 0
+
+//@ func (*PrefixMatch).AsCommonPrefix
+//@ props C14 C03 C09
+//@ requires           m:      match != nil
+//@ ensures [C14,C03]  def:    ret0.Prefix == match.MatchedPart
+//@ modifies nothing
+
+//@ func (*uploader).ListMultipartUploads
+//@ props C14 C09
+//@ option guard-triggers
+//@ let BU = u.buckets[bucket]
+//@ let L = bucketUploads.objectIndex
+//@ let NX = ite(iter.didSeek, ite(iter.seekWasOK, it_idx(iter.inner), sl_len(bucketUploads.objectIndex)), it_idx(iter.inner) + 1)
+//@ pred upListed(bu, r) = all(k, 0, len(r.Uploads), has(bu.uploads, r.Uploads[k].UploadID) && bu.uploads[r.Uploads[k].UploadID] != nil &&
+//@     bu.uploads[r.Uploads[k].UploadID].Object == r.Uploads[k].Key)
+//@ requires          inv:    uploaderInv(u)
+//@ requires          free:   u.mu == 0
+//@ requires [C14]    uwf:    uWf(u)
+//@ requires [C14]    umember: uMember(u)
+//@ pred kAt(l, i) = sl_key(l)[i]
+//@ pred lAt(l, i) = dyn(sl_val(l)[sl_key(l)[i]], []*multipartUpload)
+//@ pred keysOK(bu) = all0(i, 0, sl_len(bu.objectIndex), typeis(kAt(bu.objectIndex, i), string) && typeis(sl_val(bu.objectIndex)[kAt(bu.objectIndex, i)], []*multipartUpload) &&
+//@     len(lAt(bu.objectIndex, i)) >= 1 && all(j, 0, len(lAt(bu.objectIndex, i)), lAt(bu.objectIndex, i)[j] != nil && has(bu.uploads, lAt(bu.objectIndex, i)[j].ID) &&
+//@         bu.uploads[lAt(bu.objectIndex, i)[j].ID] == lAt(bu.objectIndex, i)[j] && lAt(bu.objectIndex, i)[j].Object == dyn(kAt(bu.objectIndex, i), string)))
+//@ uses hidden: req.uwf req.umember
+//@ uses keys: req.inv req.uwf req.umember
+//@ loop 1 invariant  bkt:    ok && bucketUploads != nil && bucketUploads == u.buckets[bucket] && has(u.buckets, bucket)
+//@ loop 1 invariant  iter:   iter != nil && iter.inner != nil && it_list(iter.inner) == bucketUploads.objectIndex && -1 <= it_idx(iter.inner) && 0 <= NX && NX <= sl_len(bucketUploads.objectIndex) &&
+//@                             imp(iter.didSeek && iter.seekWasOK, 0 <= it_idx(iter.inner) && it_idx(iter.inner) < sl_len(bucketUploads.objectIndex))
+//@ loop 1 invariant  lockd:  u.mu == -1
+//@ loop 1 invariant  seen:   seenPrefixes != nil
+//@ loop 1 invariant  mark:   imp(!firstFound, marker != nil)
+//@ loop 1 invariant  trunc:  !truncated
+//@ loop 1 invariant  count:  cnt == len(result.Uploads) && cnt >= 0 && (cnt == 0 || cnt < limit)
+//@ loop 1 invariant  keys:   keysOK(bucketUploads)
+//@ loop 1 invariant  sound:  upListed(bucketUploads, result)
+//@ loop 2 invariant  bkt:    ok && bucketUploads != nil && bucketUploads == u.buckets[bucket] && has(u.buckets, bucket)
+//@ loop 2 invariant  iter:   iter != nil && iter.inner != nil && it_list(iter.inner) == bucketUploads.objectIndex && 0 <= it_idx(iter.inner) && it_idx(iter.inner) < sl_len(bucketUploads.objectIndex) && !iter.didSeek
+//@ loop 2 invariant  lockd:  u.mu == -1
+//@ loop 2 invariant  seen:   seenPrefixes != nil
+//@ loop 2 invariant  mark:   imp(!firstFound, marker != nil)
+//@ loop 2 invariant  trunc:  !truncated
+//@ loop 2 invariant  count:  cnt == len(result.Uploads) && cnt >= 0 && (cnt == 0 || cnt < limit)
+//@ loop 2 invariant  keys:   keysOK(bucketUploads)
+//@ loop 2 invariant  sound:  upListed(bucketUploads, result)
+//@ loop 2 invariant  ups:    all(j, 0, len(uploads), uploads[j] != nil && has(bucketUploads.uploads, uploads[j].ID) && bucketUploads.uploads[uploads[j].ID] == uploads[j] && uploads[j].Object == object)
+//@ loop 3 invariant  idx:    -1 <= rangeindex__1 && rangeindex__1 < len(uploads)
+//@ loop 2 hint       sub:    imp(firstFound, all(r, rangeindex__1, rangeindex__1 + 1, all(j, 0, len(uploads), uploads[j] == old(uploads[j + r]) && uploads[j] != nil && has(bucketUploads.uploads, uploads[j].ID) &&
+//@                             bucketUploads.uploads[uploads[j].ID] == uploads[j] && uploads[j].Object == object)))
+//@ loop 4 invariant  idx:    -1 <= rangeindex__2 && rangeindex__2 < len(uploads)
+//@ loop 4 invariant  count:  cnt == len(result.Uploads) && cnt >= 0 && (cnt == 0 || cnt < limit)
+//@ loop 4 invariant  keys:   keysOK(bucketUploads)
+//@ loop 4 invariant  sound:  upListed(bucketUploads, result)
+//@ loop 4 hint       grown:  upListed(bucketUploads, result)
+//@ loop 5 invariant  bkt:    bucketUploads != nil && bucketUploads == u.buckets[bucket] && has(u.buckets, bucket) && u.mu == -1
+//@ loop 5 invariant  iter:   iter != nil && iter.inner != nil && it_list(iter.inner) == bucketUploads.objectIndex && -1 <= it_idx(iter.inner) &&
+//@                             imp(iter.didSeek && iter.seekWasOK, 0 <= it_idx(iter.inner) && it_idx(iter.inner) < sl_len(bucketUploads.objectIndex))
+//@ loop 5 invariant  keys:   keysOK(bucketUploads)
+//@ loop 5 invariant  sound:  upListed(bucketUploads, result)
+//@ loop 5 invariant  count:  len(result.Uploads) <= max(limit, 1)
+//@ ensures [C14]     nobucket: imp(!has(u.buckets, bucket), ret0 == nil && ret1 != nil)
+//@ ensures [C14]     ok:     imp(has(u.buckets, bucket), ret1 == nil && ret0 != nil)
+//@ ensures [C14]     limit:  imp(ret1 == nil, len(ret0.Uploads) <= max(limit, 1))
+//@ ensures [C14]     sound:  imp(ret1 == nil, upListed(BU, ret0))
 //@ ensures           locks:  u.mu == 0
 
 //@ func (*uploader).AbortMultipartUpload
-//@ props C06 C09
+//@ props C06 C09 C14
+//@ option guard-triggers
 //@ requires          inv:    uploaderInv(u)
 //@ requires          free:   u.mu == 0
 //@ requires          idx:    allstr(b, imp(has(u.buckets, b), uploadIndexInv(u.buckets[b].objectIndex)))
+//@ requires [C14]    uwf:    uWf(u)
+//@ requires [C14]    umember: uMember(u)
+//@ requires [C14]    udistinct: uDistinct(u)
+//@ requires [C14]    ucompl: uCompl(u)
+//@ requires [C14]    usep:   uSep(u)
+//@ requires [C14]    ids:    idsBelow(u)
 //@ ensures [C06]     reject: imp(ret0 != nil, unchanged())
 //@ ensures [C06]     gone:   imp(ret0 == nil, !has(u.buckets[bucket].uploads, id))
 //@ ensures [C06]     nostore: store_gen == old(store_gen) && put_count == old(put_count)
+//@ rethint           frame:  allstr(b, imp(has(u.buckets, b) && b != bucket, u.buckets[b] == old(u.buckets[b]) &&
+//@                             sl_has(u.buckets[b].objectIndex) == old(sl_has(u.buckets[b].objectIndex)) && sl_val(u.buckets[b].objectIndex) == old(sl_val(u.buckets[b].objectIndex)) &&
+//@                             samemap(u.buckets[b].uploads)))
+//@ rethint           umemberA: imp(has(u.buckets, bucket), idxMember(u.buckets[bucket]))
+//@ rethint           umemberB: allstr(b, imp(has(u.buckets, b) && b != bucket, idxMember(u.buckets[b])))
+//@ rethint           ucomplA: imp(has(u.buckets, bucket), idxComplete(u.buckets[bucket]))
+//@ rethint           ucomplB: allstr(b, imp(has(u.buckets, b) && b != bucket, idxComplete(u.buckets[b])))
+//@ ensures [C14]     uwf:    uWf(u)
+//@ ensures [C14]     umember: uMember(u)
+//@ ensures [C14]     udistinct: uDistinct(u)
+//@ ensures [C14]     ucompl: uCompl(u)
+//@ ensures [C14]     usep:   uSep(u)
+//@ ensures [C14]     ids:    idsBelow(u)
+//@ uses ids: req.inv req.uwf req.usep req.ids -hints hint.frame -calls call.remove.others call.remove.gone call.getUnlocked.found
 //@ ensures           locks:  u.mu == 0
+//@ uses frame: req.inv req.free req.uwf req.usep -calls call.getUnlocked.found
+//@ uses uwf: req.inv req.free req.uwf req.usep -hints -calls call.remove.wf call.getUnlocked.found
+//@ uses umemberA: req.inv req.umember -hints -calls call.remove.member call.getUnlocked.found
+//@ uses umemberB: req.inv req.umember -hints hint.frame -calls call.getUnlocked.found
+//@ uses umember: req.inv -hints hint.umemberA hint.umemberB -calls call.getUnlocked.found
+//@ uses udistinct: req.inv req.free req.uwf req.udistinct req.usep -hints -calls call.remove.distinct call.getUnlocked.found
+//@ uses ucomplA: req.inv req.ucompl -hints -calls call.remove.compl call.getUnlocked.found
+//@ uses ucomplB: req.inv req.ucompl -hints hint.frame -calls call.getUnlocked.found
+//@ uses ucompl: req.inv -hints hint.ucomplA hint.ucomplB -calls call.getUnlocked.found
+//@ uses usep: req.inv req.free req.usep -hints -calls
+//@ uses pre.remove.wf: req.inv req.uwf -calls call.getUnlocked.found
+//@ uses pre.remove.known: req.inv req.uwf -calls call.getUnlocked.found
+//@ uses pre.remove.member: req.inv req.umember -calls call.getUnlocked.found
+//@ uses pre.remove.distinct: req.inv req.udistinct -calls call.getUnlocked.found
+//@ uses pre.remove.compl: req.inv req.ucompl -calls call.getUnlocked.found
 
 //@ func (*uploader).ListParts
 //@ props C14 C09
@@ -616,7 +918,7 @@ func wfRangeReq(o *ObjectRangeRequest) bool {
 //@ props C09 C08
 //@ requires           inv:    gInv(g) && w != nil && rqInv(r) && meta != nil
 //@ ensures [C08]      reject: imp(err != nil && errcode(err) != "" && !g.autoBucket, store_gen == old(store_gen))
-//@ modifies store_gen, resp_writes(w), meta[:]
+//@ modifies store_gen, resp_writes(w), meta[:], get_count, get_bucket, get_key, get_ver, get_obj
 //@ func (*GoFakeS3).deleteObject
 //@ props C09 C02
 //@ requires           inv:    gInv(g) && w != nil && rqInv(r)
@@ -687,13 +989,13 @@ func wfRangeReq(o *ObjectRangeRequest) bool {
 //@ loop 1 invariant   keep:   allstr(k, imp(old(has(meta, k)), has(meta, k) && meta[k] == old(meta[k])))
 //@ ensures [C01]      keep:   allstr(k, imp(old(has(meta, k)), has(meta, k) && meta[k] == old(meta[k])))
 //@ ensures            err:    imp(ret0 != nil, unchanged())
-//@ modifies meta[:]
+//@ modifies meta[:], get_count, get_bucket, get_key, get_ver, get_obj
 
 //@ func CopyObject
 //@ props C02 C01 C08 C09
 //@ requires           args:   db != nil && meta != nil
 //@ ensures [C08]      reject: imp(err != nil, store_gen == old(store_gen))
-//@ modifies store_gen, put_count, put_bucket, put_key, put_meta, put_size, put_input, rd_pos
+//@ modifies store_gen, put_count, put_bucket, put_key, put_meta, put_size, put_input, rd_pos, get_count, get_bucket, get_key, get_ver, get_obj
 
 //@ func (MFADeleteStatus).Enabled
 //@ props C05
